@@ -107,6 +107,35 @@ func init() {
 				}
 				col = append(col, orb.Point{1, 1}, orb.LineString{{0, 0}, {5, 5}}) // lower-dimensional members do not count
 				area("collection", mp, col)
+				// every two-dimensional kind as a member: a ring, a bound (the polygon it denotes), a multipolygon, a nested
+				// collection - the collection measures as the multipolygon of all of them
+				x0, y0, bw, bh := iv(6), iv(6), 1+c.rng.Intn(5), 1+c.rng.Intn(5)
+				bnd := orb.Bound{Min: orb.Point{float64(x0), float64(y0)}, Max: orb.Point{float64(x0 + bw), float64(y0 + bh)}}
+				bring := [][2]int{{x0, y0}, {x0 + bw, y0}, {x0 + bw, y0 + bh}, {x0, y0 + bh}, {x0, y0}}
+				extra := ring(8, 5)
+				sh := 0 // a ring member counts with its signed area: keep it counter-clockwise, so that it measures like a polygon
+				for j := range extra {
+					a, b := extra[j], extra[(j+1)%len(extra)]
+					sh += a[0]*b[1] - a[1]*b[0]
+				}
+				if sh < 0 {
+					for a, b := 0, len(extra)-1; a < b; a, b = a+1, b-1 {
+						extra[a], extra[b] = extra[b], extra[a]
+					}
+				}
+				// (the polygons here are hole-free: with arbitrary, non-nested "holes" a member's area can be negative, and how
+				// such a member weighs inside a nested collection is not something the property speaks about)
+				var mpo [][][][2]int
+				for _, p := range mp {
+					mpo = append(mpo, p[:1])
+				}
+				g = mpOf(mpo, 1)
+				mixed := orb.Collection{bnd, ringOf(extra, 1), orb.Collection{g}, orb.Point{3, 3}}
+				if c.rng.Intn(2) == 0 {
+					mixed = orb.Collection{orb.Collection{bnd}, g, ringOf(extra, 1)}
+				}
+				all := append([][][][2]int{{bring}, {extra}}, mpo...)
+				area("collection", all, mixed)
 			case 2: // centroids of points and of lines with integer segment lengths; lower-dimensional collections
 				k := 1 + c.rng.Intn(6)
 				pts := make([][2]int, k)
